@@ -1354,6 +1354,46 @@ SGN0_CACHE_REASONS = {
 }
 
 
+# ---------------------------------------------------------------------------------------------- RND
+def rule_RND(ctx):
+    """Rounding a float to the nearest integer by adding (or subtracting) 0.5 and truncating rounds TWICE: the sum x + 0.5 is itself
+    rounded to a float first, so a value one ulp above a tie (0.5 + 2**-53) becomes exactly the tie, and a tie test made afterwards
+    (`f - int(f) == 0`) then "corrects" it the wrong way; 0.49999999999999994 + 0.5 is 1.0.  An encoder that must give the nearest
+    (ties-to-even) integer of its input has to ask for that directly (round(), which is exact), not build it from x +- 0.5."""
+    m = ctx.m
+    r = RuleResult('RND', 'no encoder rounds to nearest by adding 0.5 and truncating (double rounding)')
+    n = 0
+    for f in m.funcs.values():
+        if f.mod in ('__main__', 'luts'):
+            continue
+        # names shifted by a half
+        shifted = {}
+        for x in own_walk(f.node):
+            if isinstance(x, ast.AugAssign) and isinstance(x.op, (ast.Add, ast.Sub)) and isinstance(x.target, ast.Name) \
+                    and isinstance(x.value, ast.Constant) and x.value.value == 0.5 and isinstance(x.value.value, float):
+                shifted[x.target.id] = x
+            if isinstance(x, ast.Assign) and len(x.targets) == 1 and isinstance(x.targets[0], ast.Name) and isinstance(x.value, ast.BinOp) \
+                    and isinstance(x.value.op, (ast.Add, ast.Sub)) and any(isinstance(y, ast.Constant) and isinstance(y.value, float) and y.value == 0.5
+                                                                            for y in (x.value.left, x.value.right)):
+                shifted[x.targets[0].id] = x
+        for x in own_walk(f.node):
+            if isinstance(x, ast.Call) and ast.unparse(x.func) in ('int', 'math.floor', 'math.trunc', 'math.ceil') and len(x.args) == 1:
+                n += 1
+                a = x.args[0]
+                direct = isinstance(a, ast.BinOp) and isinstance(a.op, (ast.Add, ast.Sub)) and any(
+                    isinstance(y, ast.Constant) and isinstance(y.value, float) and y.value == 0.5 for y in (a.left, a.right))
+                via = isinstance(a, ast.Name) and a.id in shifted and shifted[a.id].lineno < x.lineno
+                if direct or via:
+                    r.fail(f.key, x, f"{f.name} rounds by shifting its value by 0.5 and truncating ({norm(shifted[a.id]) if via else norm(a)}; {norm(x)}): the "
+                           'shifted value is itself rounded to a float, so an input one ulp above a tie is taken for the tie and rounded the wrong way '
+                           '(64x = 0.5 + 2**-53 encodes as 0 instead of 1)', loc=f.loc(x))
+                else:
+                    r.ok(None)
+    if n < 10:
+        raise AnalysisError(f'only {n} float-to-integer conversions found (floor 10)')
+    return r
+
+
 # ---------------------------------------------------------------------------------------------- PAD
 RAW_BUFFER_CONSUMERS = {'memoryview', 'bytes', 'bytearray', 'hash', 'zlib.crc32', 'zlib.adler32', 'binascii.hexlify', 'binascii.crc32',
                         'int.from_bytes', 'struct.unpack_from', 'struct.unpack', 'hashlib.md5', 'hashlib.sha1', 'hashlib.sha256', 'array.array',
